@@ -4,6 +4,8 @@ import (
 	"errors"
 	"fmt"
 	"reflect"
+	"strconv"
+	"strings"
 	"sync"
 	"time"
 
@@ -449,6 +451,8 @@ func build1(n *Node, rec *Recorder) z.ZogSchema {
 			s.PostTransform(postFn(n, ps, rec))
 		}
 		return s
+	case "pre":
+		return buildPre(n, rec)
 	case "ptr":
 		s := z.Ptr(Build(n.Elem, rec))
 		if n.NotNil != nil {
@@ -580,4 +584,70 @@ func ApplyIntTest(s *z.NumberSchema[int], t TestSpec) {
 	default:
 		panic("ApplyIntTest " + t.Name)
 	}
+}
+
+// ---------- Preprocess ----------
+
+func preErr(n *Node) error {
+	if n.PreKind == "failissue" {
+		return &z.ZogIssue{Code: n.PreIss.Code, Path: n.PreIss.Path, Dtype: n.PreIss.DType, Message: n.PreIss.Msg}
+	}
+	return errors.New("preprocess failed")
+}
+
+func valPre[T any](n *Node, rec *Recorder, inner z.ZogSchema, bump func(T) T) z.ZogSchema {
+	return z.Preprocess(func(p *T, ctx z.Ctx) (T, error) {
+		noteCtx(ctx, rec)
+		rec.addEvent(Event{"pre", n.PreID, ctxPath(ctx), DOf(n.Elem, reflect.ValueOf(p).Elem())})
+		switch n.PreKind {
+		case "vinc":
+			return bump(*p), nil
+		case "vfail":
+			return *p, errors.New(n.PreMsg)
+		}
+		return *p, nil
+	}, inner)
+}
+
+func buildPre(n *Node, rec *Recorder) z.ZogSchema {
+	inner := Build(n.Elem, rec)
+	note := func(data any, ctx z.Ctx) {
+		noteCtx(ctx, rec)
+		v := VOfGo(data)
+		rec.addEvent(Event{"pre", n.PreID, ctxPath(ctx), D{K: "cu", CV: &v}})
+	}
+	switch n.PreKind {
+	case "idany":
+		return z.Preprocess(func(data any, ctx z.Ctx) (any, error) { note(data, ctx); return data, nil }, inner)
+	case "fail", "failissue":
+		return z.Preprocess(func(data any, ctx z.Ctx) (any, error) { note(data, ctx); return data, preErr(n) }, inner)
+	case "atoi":
+		return z.Preprocess(func(data string, ctx z.Ctx) (int, error) {
+			note(data, ctx)
+			k, err := strconv.Atoi(data)
+			if err != nil {
+				return 0, errors.New("not a number")
+			}
+			return k, nil
+		}, inner)
+	case "trim":
+		return z.Preprocess(func(data string, ctx z.Ctx) (string, error) { note(data, ctx); return strings.TrimSpace(data), nil }, inner)
+	case "mismatch":
+		return z.Preprocess(func(data chan int, ctx z.Ctx) (int, error) { note(data, ctx); return 0, nil }, inner)
+	case "vid", "vinc", "vfail":
+		switch n.Elem.PK {
+		case "int":
+			return valPre(n, rec, inner, func(x int) int {
+				if x < 1000000 {
+					return x + 1
+				}
+				return x
+			})
+		case "str":
+			return valPre(n, rec, inner, func(x string) string { return x + "!" })
+		case "bool":
+			return valPre(n, rec, inner, func(x bool) bool { return !x })
+		}
+	}
+	panic("buildPre: " + n.PreKind + "/" + n.Elem.PK)
 }
